@@ -1,15 +1,19 @@
 //! K2: recipes / plans of the real planners (hook H1) for the Lean model to reproduce.
 use crate::util::*;
+#[allow(unused_imports)]
 use rustfft::{FftDirection, FftPlannerAvx, FftPlannerScalar, FftPlannerSse};
 use std::io::Write;
 
 pub fn recipe_line(kind: &str, n: usize) -> String {
     let r = match kind {
         "scalar" => catch(|| FftPlannerScalar::<f64>::new().verif_recipe(n)),
+        #[cfg(feature = "sse")]
         "sse" => catch(|| FftPlannerSse::<f64>::new().expect("sse unavailable").verif_recipe(n)),
-        "avx32" => catch(|| FftPlannerAvx::<f32>::new().expect("avx unavailable").verif_plan(n, FftDirection::Forward)),
-        "avx64" => catch(|| FftPlannerAvx::<f64>::new().expect("avx unavailable").verif_plan(n, FftDirection::Forward)),
-        _ => panic!("bad kind"),
+        #[cfg(feature = "avx")]
+        "avx32" | "avx32n" => catch(|| FftPlannerAvx::<f32>::new().expect("avx unavailable").verif_plan(n, FftDirection::Forward)),
+        #[cfg(feature = "avx")]
+        "avx64" | "avx64n" => catch(|| FftPlannerAvx::<f64>::new().expect("avx unavailable").verif_plan(n, FftDirection::Forward)),
+        _ => Err("planner kind not compiled in".to_string()),
     };
     match r {
         Ok(t) => t,
